@@ -315,11 +315,12 @@ def plan_C13(ctx):
     trace_stage(ctx, h, ["--record", str(ntr), "--steps", "200", "--cst", "12", "--extract", "1"], "Trace_Schema.tla", "Trace_Ops.cfg", n_traces=ntr)
 
 
-SYNTH_RULE = ("A: every pair of operand schemas built from a 10-entry pool (base sets; terms X1, B(X1), D1 u X1, X2, D1 \\ D2, debool({X1}), "
-              "debool(X1); definition texts with references to D1 / D2 / X1), first operand <= MaxA constituents, second <= MaxB with "
+SYNTH_RULE = ("A: every pair of operand schemas built from a 12-entry pool (base sets; terms X1, B(X1), D1 u X1, X2, D1 \\ D2, debool({X1}), "
+              "debool(X1); definition texts with references to D1 / D2 / X1; terms whose term text names X1 or D1), first operand <= MaxA constituents, second <= MaxB with "
               "overlapping or disjoint identifiers, x every equation table of <= MaxPairs pairs (base-base, base-term incl. the swapped "
               "direction, term-term of equal and unequal typification, two keys on one value, values defined through keys), plus tables "
-              "inside one schema of <= 4 constituents (Ops().IsEquatable / Equate), also a second table on the result of a first one.  TLC (Gen_Synth over SchemaOps.tla) predicts defined / refused, the result "
+              "inside one schema of <= 4 constituents (Ops().IsEquatable / Equate) with the options keep / take the removed side's texts / new term, "
+              "a value named through its key's term (refused), also a second table on the result of a first one.  TLC (Gen_Synth over SchemaOps.tla) predicts defined / refused, the result "
               "(order, identifiers, aliases, definitions, texts, statuses, typifications) and both translations, and checks SynthContract "
               "(the statement as a predicate) on its own result as an invariant.  The real BinarySynthes / Equate is executed with the "
               "identifier hook; the contract is evaluated on the implementation's own result (C09 invariants on the result, translations "
@@ -333,7 +334,7 @@ def plan_C12(ctx):
     h = hbin(b, "h_synth")
     ctx.rule = SYNTH_RULE
     ctx.assumptions = ["operands whose definitions or texts mention a name that resolves nowhere are excluded from the image-of-definition clause (such a name may start to resolve after merging, cf. K4)",
-                       "the texts of an equated pair follow the table's keep/replace option (a swapped pair keeps the removed side's texts) and are compared with the model only",
+                       "the texts of an equated pair follow the table's keep / replace / new-term option (a swapped pair keeps the removed side's texts) and are compared with the model only; two keys on one value are generated with the default option only (competing options depend on the processing order)",
                        "admissibility is the implementation's documented rule set as modelled in EqAdmissible; a base set equated with a non-set term is inadmissible (repaired defect D23)"]
     ctx.constants = {}
     for cfg in (["Gen_Synth_q.cfg", "Gen_Synth_q2.cfg", "Gen_Synth_qe.cfg"] if ctx.quick else ["Gen_Synth_q2.cfg", "Gen_Synth_qe.cfg", "Gen_Synth_t.cfg"]):
